@@ -60,11 +60,17 @@ func (k msgServer) AddFeeToDispute(goCtx context.Context,
 	if msg.Amount.Amount.GT(fee) {
 		msg.Amount.Amount = fee
 	}
-	// dispute fee payer
-	if err := k.Keeper.DisputeFeePayer.Set(ctx, collections.Join(dispute.DisputeId, sender.Bytes()), types.PayerInfo{
-		Amount:   msg.Amount.Amount,
-		FromBond: msg.PayFromBond,
-	}); err != nil {
+	// dispute fee payer; a payer who already paid towards this dispute accumulates
+	payerKey := collections.Join(dispute.DisputeId, sender.Bytes())
+	payerInfo, err := k.Keeper.DisputeFeePayer.Get(ctx, payerKey)
+	if err != nil {
+		if !errors.Is(err, collections.ErrNotFound) {
+			return nil, err
+		}
+		payerInfo = types.PayerInfo{Amount: math.ZeroInt(), FromBond: msg.PayFromBond}
+	}
+	payerInfo.Amount = payerInfo.Amount.Add(msg.Amount.Amount)
+	if err := k.Keeper.DisputeFeePayer.Set(ctx, payerKey, payerInfo); err != nil {
 		return nil, err
 	}
 
